@@ -27,7 +27,7 @@ Theorem c12_restart_point : C12_restart_point.
 Proof. exact c12_restart_point_proof. Qed.
 Print Assumptions c12_restart_point.
 
-(* the code before the two fix: patches (kept as documentation of what the fixes repair) *)
+(* the code before the fix: patches (kept as documentation of what the fixes repair) *)
 Theorem c12_eternal_unfixed_refuted : C12_eternal_unfixed_hangs.
 Proof. exact c12_eternal_unfixed_hangs_proof. Qed.
 Print Assumptions c12_eternal_unfixed_refuted.
@@ -35,6 +35,12 @@ Print Assumptions c12_eternal_unfixed_refuted.
 Theorem c12_joining_unfixed_refuted : C12_joining_unfixed_hangs.
 Proof. exact c12_joining_unfixed_hangs_proof. Qed.
 Print Assumptions c12_joining_unfixed_refuted.
+
+(* the handler wrapper of the multiplexed source before repo_patches/C12_fix_mux_no_call_after_shutdown.diff: a handler call
+   begins after Run returned and Terminated was reached (after an external Shutdown; after a handler failure) *)
+Theorem c12_mux_unfixed_refuted : C12_mux_unfixed_late_call.
+Proof. exact c12_mux_unfixed_late_call_proof. Qed.
+Print Assumptions c12_mux_unfixed_refuted.
 
 (* ---- non-vacuity *)
 (* eternal: Shutdown arrives during the 2nd handler call of a restarted inner source; the state meets the
@@ -50,21 +56,34 @@ Proof. exact et_fair_all. Qed.
 
 (* multiplexed: two inner sources want the handler at the same time; one waits for handlerLock *)
 Example c12_nonvacuous_mutex :
-  let s := run Mx.step ([Mx.TRun; Mx.TRun; Mx.TRun; Mx.TRun; Mx.TRun; Mx.TRun; Mx.TRun] ++
+  let s := run (Mx.step true) ([Mx.TRun; Mx.TRun; Mx.TRun; Mx.TRun; Mx.TRun; Mx.TRun; Mx.TRun] ++
                         [Mx.TIn 0; Mx.TIn 1; Mx.TIn 0; Mx.TIn 1; Mx.TIn 0; Mx.TIn 1])
                (Mx.init 2 [[IBlock 1 true]; [IBlock 2 true]]) in
   Mx.hactive s = 1 /\ Mx.hholder s = Some 0 /\
   (exists i, nth_error (Mx.inners s) 1 = Some i /\ Mx.i_pc i = Mx.IWant 2 true) /\
-  Mx.step s (Mx.TIn 1) = s.
+  Mx.step true s (Mx.TIn 1) = s.
 Proof. vm_compute. repeat split; eauto. Qed.
 
 (* multiplexed: a handler error shuts every started inner source down *)
 Example c12_nonvacuous_fail_stops_all :
-  let s := run Mx.step (repeat Mx.TRun 7 ++ repeat (Mx.TIn 0) 9)
+  let s := run (Mx.step true) (repeat Mx.TRun 7 ++ repeat (Mx.TIn 0) 9)
                (Mx.init 2 [[IBlock 1 false]; [IBlock 2 true]]) in
   Mx.failed s = true /\ Mx.terminated s = true /\
   map Mx.started (Mx.inners s) = [true; true] /\ map Mx.i_term (Mx.inners s) = [true; true].
 Proof. vm_compute. auto. Qed.
+
+(* multiplexed, no call after: source 0 inside the handler, source 1 waiting for handlerLock, complete Shutdown, Run
+   returns: the state meets the hypothesis of both multiplexed clauses of c12_no_call_after while an inner source still
+   wants the handler; the waiting source then gives up (no EHBegin), and both inner sources return *)
+Example c12_nonvacuous_no_call_after_mux :
+  let s := run (Mx.step true) (repeat Mx.TRun 8 ++ [Mx.TIn 0; Mx.TIn 0; Mx.TIn 0; Mx.TIn 1] ++ repeat Mx.TX 4 ++ [Mx.TRun; Mx.TRun])
+               (Mx.init 2 [[IBlock 1 true]; [IBlock 2 true]]) in
+  Mx.returned s = true /\ Mx.terminated s = true /\ Mx.terminating s = true /\
+  map Mx.i_pc (Mx.inners s) = [Mx.IInH 1 true; Mx.IWant 2 true] /\
+  let s' := run (Mx.step true) [Mx.TIn 0; Mx.TIn 1; Mx.TIn 1; Mx.TIn 1; Mx.TIn 1; Mx.TIn 0; Mx.TIn 0] s in
+  Mx.hbegun s' = Mx.hbegun s /\ map Mx.i_pc (Mx.inners s') = [Mx.IRet; Mx.IRet] /\
+  Mx.log s' = EPoint 25 :: EPoint 26 :: EHEnd 0 1 true :: Mx.log s.
+Proof. vm_compute. repeat split; reflexivity. Qed.
 
 (* eternal: the restart after a handler error is made from block 1, the last accepted one *)
 Example c12_nonvacuous_restart :
